@@ -176,7 +176,8 @@ class BuiltinBroachingCodeGenerator(BroachingCodeGenerator):
     def _gen_accessor_element(self, state: GenState, element: AccessorElement[BroachingPlan]) -> AST:
         target_expr = self._gen_plan_element_dispatch(state, element.target)
         if isinstance(element.accessor, DescriptorAccessor):
-            if element.accessor.attr_name.isidentifier():
+            # keyword can not be used as an attribute name, compiler applies NFKC normalization to identifiers
+            if element.accessor.attr_name.isidentifier() and can_be_keyword_arg(element.accessor.attr_name):
                 return ast_substitute(
                     f"__target_expr__.{element.accessor.attr_name}",
                     target_expr=target_expr,
